@@ -74,7 +74,7 @@ func (x *exec) callCommon(st *State, fr *Frame, ins ssa.Instruction, c *ssa.Call
 		x.safe(st, ins, "nilrecv", smt.Not(smt.Eq(fnv.one(), e.nilIface())))
 	} else if ci.dynamic && ci.fn == nil {
 		declared := false
-		if a := varOf(c.Value); a != nil && x.unit != nil && x.unit.Spec != nil && x.unit.Spec.DynCalls[a.Comment] != "" {
+		if n := dynName(c.Value); n != "" && x.unit != nil && x.unit.Spec != nil && x.unit.Spec.DynCalls[n] != "" {
 			declared = true // "dyncall": the registered callback is assumed to be a non-nil function without effect on verified state
 		}
 		if !declared {
@@ -137,17 +137,17 @@ func (x *exec) callCommon(st *State, fr *Frame, ins ssa.Instruction, c *ssa.Call
 	}
 	// dynamic call declared pure / noeffect by the unit's contract
 	if ci.dynamic && x.unit != nil && x.unit.Spec != nil && fr.isUnit {
-		if a := varOf(c.Value); a != nil {
-			if mode := x.unit.Spec.DynCalls[a.Comment]; mode != "" {
-				e.trustedUsed["dyncall "+a.Comment+" ("+mode+") in "+x.unit.Name] = true
+		if n := dynName(c.Value); n != "" {
+			if mode := x.unit.Spec.DynCalls[n]; mode != "" {
+				e.trustedUsed["dyncall "+n+" ("+mode+") in "+x.unit.Name] = true
 				var rets []Value
 				res := ci.sig.Results()
 				for i := 0; i < res.Len(); i++ {
-					r := e.fresh("dyn_"+a.Comment, res.At(i).Type())
+					r := e.fresh("dyn_"+n, res.At(i).Type())
 					e.assumeValid(st, r)
 					rets = append(rets, r)
 				}
-				x.recordEventVals(st, ins, "var:"+a.Comment, kind, full, nil)
+				x.recordEventVals(st, ins, "var:"+n, kind, full, nil)
 				st.trace[len(st.trace)-1].Rets = rets
 				k(st, rets)
 				return
@@ -220,6 +220,23 @@ func (x *exec) resolveCallee(st *State, fr *Frame, c *ssa.CallCommon, fnv Value)
 		return calleeInfo{key: FuncKey(fn), fn: fn, sig: fn.Signature, bindings: binds}
 	}
 	return calleeInfo{key: "dynamic:" + typeKey(sig), sig: sig, dynamic: true}
+}
+
+// dynName names the function-typed variable or struct field a called value is loaded from ("" when it is neither).
+func dynName(v ssa.Value) string {
+	if a := varOf(v); a != nil {
+		return a.Comment
+	}
+	if u, ok := v.(*ssa.UnOp); ok {
+		if fa, ok := u.X.(*ssa.FieldAddr); ok {
+			if pt, ok := types.Unalias(fa.X.Type()).Underlying().(*types.Pointer); ok {
+				if st, ok := types.Unalias(pt.Elem()).Underlying().(*types.Struct); ok {
+					return st.Field(fa.Field).Name()
+				}
+			}
+		}
+	}
+	return ""
 }
 
 // varOf identifies the source variable (an Alloc of some enclosing function) a value is loaded from.
@@ -830,8 +847,8 @@ func staticKeyOf(c *ssa.CallCommon) string {
 	if b, ok := c.Value.(*ssa.Builtin); ok {
 		return "builtin:" + b.Name()
 	}
-	if a := varOf(c.Value); a != nil {
-		return "var:" + a.Comment
+	if n := dynName(c.Value); n != "" {
+		return "var:" + n
 	}
 	return "dynamic"
 }
